@@ -525,10 +525,11 @@ FamilyLattice(p, ds) == \E d \in ds : \E back \in BOOLEAN : p = LatticeProg(d, b
 (* ======================================================================== *)
 XAtoms == << Tok("T1"), Tok("T2"), Tok("T3"), Tok("T8"), Tok("T9"),
              Iface("I1", "a", <<>>), Iface("I2", "a", <<"I1">>),
-             MkAtom("C", "tok", "a", <<>>, <<>>, <<Impl("I1", "pointer")>>, ""),
+             MkAtom("C", "tok", "a", <<>>, <<>>, <<Impl("I1", "pointer"), Impl("I2", "pointer")>>, ""),
              MkAtom("C1", "tok", "a", <<>>, <<>>, <<Impl("I1", "pointer")>>, ""),
              StructT("S1", "a", <<Fld("A", "T1"), FldT("D", "T8", "foreign"), FldT("E", "T3", "other")>>),
-             TokIn("U1", "b"), TokIn("U2", "b"), StructT("S9", "b", <<Fld("A", "U1"), Fld("c", "U2")>>) >>
+             TokIn("U1", "b"), TokIn("U2", "b"), StructT("S9", "b", <<Fld("A", "U1"), Fld("c", "U2")>>), TokIn("V1", "c"),
+             StructT("S2", "a", <<Fld("F", "T2"), Fld("G", "T3")>>) >>
 XF(name, ins, out) == Func(name, ins, out, FALSE, FALSE)
 XInj(name, params, out, items, file) == [Inj(name, params, out, FALSE, FALSE, items) EXCEPT !.file = file]
 XProg(v) ==
@@ -585,6 +586,19 @@ XProg(v) ==
     [] v = "two-unnamed-values" ->              \* two values of unnamed types in one injector: both helper variables derive the same base name
          mk(<<ValueL("V1", "[]T2"), ValueL("V2", "[]T3"), ValueL("V3", "*T8"), XF("Q", <<"[]T2", "[]T3", "*T8">>, "T1")>>, <<>>,
             <<XInj("Inject", <<>>, "T1", <<ItL(1), ItL(2), ItL(3), ItL(4)>>, 1), XInj("InjectB", <<>>, "T1", <<ItL(4), ItL(3), ItL(2), ItL(1)>>, 1)>>)
+    [] v = "same-name-packages" ->              \* two packages with one package name, each with a set Set and a provider New
+         mk(<<FuncIn("NewB", "b", <<>>, "U1", FALSE, FALSE), FuncIn("NewC", "c", <<>>, "V1", FALSE, FALSE), XF("P1", <<"U1", "V1">>, "T1")>>,
+            <<SetD("SetB", "b", <<ItL(1)>>), SetD("SetC", "c", <<ItL(2)>>)>>,
+            <<XInj("Inject", <<>>, "T1", <<ItS(1), ItS(2), ItL(3)>>, 1)>>)
+         @@ [naming |-> [x \in {"pkg:b", "pkg:c", "alias:b", "alias:c", "NewB", "NewC", "SetB", "SetC"} |->
+                          CASE x \in {"pkg:b", "pkg:c"} -> "store" [] x = "alias:b" -> "bstore" [] x = "alias:c" -> "cstore"
+                            [] x \in {"NewB", "NewC"} -> "New" [] OTHER -> "Set"]]
+    [] v = "two-fieldsof-items" ->              \* two separate wire.FieldsOf items in one call
+         mk(<<FieldsL("FO1", "S2", <<"F">>), FieldsL("FO2", "S2", <<"G">>), XF("PS2", <<>>, "S2"), XF("Q", <<"T2", "T3">>, "T1")>>, <<>>,
+            <<XInj("Inject", <<>>, "T1", <<ItL(1), ItL(2), ItL(3), ItL(4)>>, 1), XInj("InjectRev", <<>>, "T1", <<ItL(4), ItL(3), ItL(2), ItL(1)>>, 1)>>)
+    [] v = "bind-after-concrete" ->             \* the concrete type is resolved before the interfaces bound to it
+         mk(<<XF("Top", <<"*C", "I1", "I2">>, "T1"), BindL("B1", "I1", "*C"), BindL("B2", "I2", "*C"), XF("PC", <<>>, "*C")>>, <<>>,
+            <<XInj("Inject", <<>>, "T1", <<ItL(1), ItL(2), ItL(3), ItL(4)>>, 1), XInj("InjectRev", <<>>, "T1", <<ItL(4), ItL(3), ItL(2), ItL(1)>>, 1)>>)
     [] v = "same-set-twice-direct" ->          \* one set listed twice in the same call
          mk(<<XF("P2", <<>>, "T2"), XF("P1", <<"T2">>, "T1")>>, <<SetD("SetA", "a", <<ItL(1)>>)>>,
             <<XInj("Inject", <<>>, "T1", <<ItS(1), ItL(2), ItS(1)>>, 1)>>)
@@ -595,6 +609,6 @@ XVariants == {"star-foreign-tag-missing", "star-foreign-tag-ok", "two-files-firs
               "missing-behind-bind", "missing-behind-bind-2", "bind-iface-not-implementing", "arg-returned-through-bind",
               "arg-returned-directly", "shared-import-bind-lacks-concrete", "multi-name-var-sets", "same-set-twice-direct", "same-set-twice-in-set",
               "foreign-struct-star", "foreign-struct-unexported-name", "foreign-struct-exported-name", "variadic-err-provider",
-              "same-named-sets-two-packages", "two-unnamed-values"}
+              "same-named-sets-two-packages", "two-unnamed-values", "same-name-packages", "two-fieldsof-items", "bind-after-concrete"}
 FamilyX(p, vs) == \E v \in vs : p = XProg(v)
 =============================================================================
